@@ -140,11 +140,16 @@ impl Transformation<String> {
   ) -> Result<Transformation<MetaVariable>, TransformError> {
     use Transformation as T;
     Ok(match self {
-      T::Replace(r) => T::Replace(Replace {
-        source: parse_meta_var(&r.source, lang)?,
-        replace: r.replace.clone(),
-        by: r.by.clone(),
-      }),
+      T::Replace(r) => {
+        // compile the regex while loading so that an invalid one is a config error
+        // instead of a panic on the first matched node
+        Regex::new(&r.replace)?;
+        T::Replace(Replace {
+          source: parse_meta_var(&r.source, lang)?,
+          replace: r.replace.clone(),
+          by: r.by.clone(),
+        })
+      }
       T::Substring(s) => T::Substring(Substring {
         source: parse_meta_var(&s.source, lang)?,
         start_char: s.start_char,
